@@ -271,6 +271,101 @@ def gen_case(kind):
     return fn
 
 
+def _entity_table(t, local):
+    """Own vectorised entity table: (sorted vertex tuples of every (slot, cell), unique columns, inverse, counts); 64-bit."""
+    t = np.asarray(t).astype(np.int64)
+    width = max(len(l) for l in local)
+    cols = []
+    for l in local:
+        v = np.sort(t[list(l)], axis=0)
+        if v.shape[0] < width:               # prism: triangles padded by their largest vertex
+            v = np.vstack([v, np.repeat(v[-1:], width - v.shape[0], axis=0)])
+        cols.append(v)
+    allc = np.stack(cols, axis=1)                                # (width, nslots, nt)
+    flat = allc.reshape(width, -1)
+    uniq, inv, cnt = np.unique(flat, axis=1, return_inverse=True, return_counts=True)
+    return allc, uniq, np.asarray(inv).reshape(len(local), -1), cnt
+
+
+def _canon(cols):
+    """Library entity columns as sorted vertex sets padded by the largest vertex (repeated vertices removed first)."""
+    c = np.sort(np.asarray(cols).astype(np.int64), axis=0)
+    if c.shape[0] == 4:
+        # (a,a,b,c) / (a,b,c,c) ... -> distinct vertices first, then padded by the largest
+        out = c.copy()
+        for j in range(1, 4):
+            dup = out[j] == out[j - 1]
+            if dup.any():
+                out[j:-1, dup] = out[j + 1:, dup]
+        c = np.sort(out, axis=0)
+    return c
+
+
+def large_meshes(ctx, k):
+    """The statement has no size limit: meshes with more vertices than 2^16 (vertex pairs no longer fit 32-bit products),
+    numbered at random.  Dictionary models are too slow here; the oracle is the same definition evaluated with 64-bit
+    NumPy sorting (each facet/edge once, slot-wise t2f/t2e, f2t, boundary set)."""
+    import skfem
+    rng = ctx.rng()
+    kind = ("tri", "quad", "tet", "hex")[k % 4]
+    if kind == "tri":
+        n = int(rng.integers(258, 270))
+        mesh = skfem.MeshTri.init_tensor(np.linspace(0, 1, n), np.linspace(0, 1, n + 3))
+    elif kind == "quad":
+        n = int(rng.integers(258, 270))
+        mesh = skfem.MeshQuad.init_tensor(np.linspace(0, 1, n), np.linspace(0, 1, n + 3))
+    elif kind == "tet":
+        n = int(rng.integers(41, 44))
+        mesh = skfem.MeshTet.init_tensor(np.linspace(0, 1, n), np.linspace(0, 1, n), np.linspace(0, 1, n + 1))
+    else:
+        n = int(rng.integers(41, 44))
+        mesh = skfem.MeshHex.init_tensor(np.linspace(0, 1, n), np.linspace(0, 1, n), np.linspace(0, 1, n + 1))
+    nv = mesh.p.shape[1]
+    perm = rng.permutation(nv)
+    p = np.empty_like(np.asarray(mesh.p))
+    p[:, perm] = np.asarray(mesh.p)
+    t = perm[np.asarray(mesh.t)]
+    mesh = type(mesh)(p, t)
+    tag = {"kind": kind, "nvertices": int(nv), "ncells": int(t.shape[1]), "numbering": "random"}
+    rd = mesh.elem.refdom
+    t = np.asarray(mesh.t)
+    for what, local, tab, t2x in (("facets", rd.facets, "facets", "t2f"),) + ((("edges", rd.edges, "edges", "t2e"),) if mesh.dim() == 3 else ()):
+        allc, uniq, inv, cnt = _entity_table(t, local)
+        lib = _canon(getattr(mesh, tab))
+        libu = np.unique(lib, axis=1)
+        ctx.check("facets-unique-and-complete" if what == "facets" else "edges-unique-and-complete",
+                  lib.shape[1] == uniq.shape[1] and libu.shape == uniq.shape and np.array_equal(libu, uniq),
+                  mech=f"{what}:large-mesh:{kind}", got=int(lib.shape[1]), distinct=int(libu.shape[1]), expected=int(uniq.shape[1]), **tag)
+        tx = np.asarray(getattr(mesh, t2x))
+        ok = tx.shape == (len(local), t.shape[1]) and tx.min() >= 0 and tx.max() < lib.shape[1]
+        if ok:
+            ok = all(np.array_equal(lib[:, tx[s_]], allc[:, s_, :]) for s_ in range(len(local)))
+        ctx.check("t2f-slotwise" if what == "facets" else "t2e-slotwise", bool(ok), mech=f"{t2x}:large-mesh:{kind}", **tag)
+        if what == "facets" and ok and lib.shape[1] == uniq.shape[1]:
+            # number of cells per library facet from the own table
+            ncell = np.zeros(lib.shape[1], dtype=np.int64)
+            np.add.at(ncell, tx.ravel(), 1)
+            f2t = np.asarray(mesh.f2t)
+            nf = lib.shape[1]
+            good = f2t.shape == (2, nf)
+            if good:
+                c0, c1 = f2t[0], f2t[1]
+                has0 = (tx[:, c0] == np.arange(nf)[None, :]).any(axis=0)
+                two = ncell == 2
+                has1 = np.ones(nf, dtype=bool)
+                has1[two] = (tx[:, c1[two]] == np.arange(nf)[two][None, :]).any(axis=0) & (c1[two] != c0[two]) & (c1[two] >= 0)
+                good = bool(has0.all() and has1.all() and (c1[ncell == 1] == -1).all() and (ncell <= 2).all())
+            ctx.check("f2t-neighbours", good, mech=f"f2t:large-mesh:{kind}", **tag)
+            bf = np.sort(np.asarray(mesh.boundary_facets()))
+            ctx.check("boundary-facets", np.array_equal(bf, np.nonzero(ncell == 1)[0]), mech=f"boundary_facets:large-mesh:{kind}",
+                      got=int(bf.size), expected=int((ncell == 1).sum()), **tag)
+            bn = np.sort(np.asarray(mesh.boundary_nodes()))
+            ctx.check("boundary-nodes", np.array_equal(bn, np.unique(getattr(mesh, tab)[:, ncell == 1])),
+                      mech=f"boundary_nodes:large-mesh:{kind}", **tag)
+    ctx.reached("more-than-2^16-vertices")
+    ctx.nontrivial("large", kind)
+
+
 LAZY = ("facets", "t2f", "f2t", "edges", "t2e", "f2e", "p2f", "p2t", "p2e", "e2t", "boundary_facets()", "boundary_nodes()",
         "interior_nodes()", "boundary_edges()", "interior_edges()")
 
@@ -469,7 +564,8 @@ FAMILIES = [Family("gen-" + kd, gen_case(kd), quick=q, thorough=th)
 FAMILIES.append(Family("after-operations", after_operations, 30, 900))
 FAMILIES.append(Family("periodic", periodic_case, 16, 320))
 FAMILIES.append(Family("variants", variants, 28, 840))
+FAMILIES.append(Family("large-meshes", large_meshes, 4, 16, budget={"quick": 120, "thorough": 600}))
 FAMILIES.append(Family("docs-meshes", docs_meshes, 1, 1, budget={"quick": 60, "thorough": 120}))
 REQUIRED_REACH = ["several-components", "f2e-checked", "docs-meshes-loaded", "rechecked-after-operations", "periodic-topology",
                   "cavities-in-tensor-type-meshes", "triangles-in-given-local-order", "single-cell-meshes", "points-no-cell-uses",
-                  "tables-in-random-first-access-order", "wedge-shifted-local-order"]
+                  "tables-in-random-first-access-order", "wedge-shifted-local-order", "more-than-2^16-vertices"]
